@@ -161,6 +161,12 @@ def _interp_check_arg_in_bounds(fn, btype, xpos, two_element=False):
     env = {"error_case": None, "bt": None if two_element else btype}
 
     def test(e):
+        if isinstance(e, ast.BoolOp):
+            if isinstance(e.op, ast.And):
+                return all(test(v) for v in e.values)
+            return any(test(v) for v in e.values)
+        if isinstance(e, ast.UnaryOp) and isinstance(e.op, ast.Not):
+            return not test(e.operand)
         t = ast.unparse(e)
         if t == "len(bnd) == 2":
             return two_element
@@ -319,7 +325,7 @@ def no_cached_derived(ctx, rule="R14.4"):
     cmx, ex, extra = explorer(prog)
     edges = [E("_sft", "_dim"), E("_sft", "_hankel_kw")]
     entries = [("CovModel.dim@set", cm.setters["dim"], cm), ("CovModel.hankel_kw@set", cm.setters["hankel_kw"], cm)]
-    state.coherence(ctx, rule, cm, edges, entries=entries, extra=extra, rel=BASE, assume=CONSTRUCTED)
+    state.coherence(ctx, rule, cm, edges, entries=entries, extra=extra, rel=BASE, assume=CONSTRUCTED, raise_exits=True)
 
 
 def dim_dependent(ctx, rule="R14.5"):
@@ -331,7 +337,7 @@ def dim_dependent(ctx, rule="R14.5"):
     edges = [E("_anis", "_dim"), E("_angles", "_dim"), E("_len_scale", "_dim")]
     entries = [("CovModel.dim@set", cm.setters["dim"], cm)]
     # _anis/_angles are only rewritten when already set (not None): decide those atoms as 'set' - on a constructed model they are
-    state.coherence(ctx, rule, cm, edges, entries=entries, extra=extra, rel=BASE, assume=CONSTRUCTED)
+    state.coherence(ctx, rule, cm, edges, entries=entries, extra=extra, rel=BASE, assume=CONSTRUCTED, raise_exits=True)
     # (b) dimension-dependent default bounds of optional arguments
     n = 0
     sd = extra["set_dim"][1]
